@@ -92,7 +92,11 @@ func logging(rep *kit.Report, root string) {
 	}
 	wrappers := []string{"gzip", "errors", "errors {\n\t\t404 " + filepath.Join(root, "404.html") + "\n\t}", "header / X-H v", "templates", "rewrite /rw /a/x", "rewrite /a/skip /b/moved", "status 418 /teapot", "internal /int", "basicauth /priv u p", "redir /old /new"}
 	var subsets [][]int
-	kit.Subsets(len(wrappers), 0, 2, func(idx []int) {
+	maxWrap := 2
+	if rep.Thorough() {
+		maxWrap = 3
+	}
+	kit.Subsets(len(wrappers), 0, maxWrap, func(idx []int) {
 		seen := map[string]bool{}
 		for _, i := range idx {
 			n := strings.Fields(wrappers[i])[0]
@@ -474,6 +478,9 @@ func reloads(rep *kit.Report, root string) {
 	}
 	ops := []string{"request", "reload", "failed-reload-setup", "failed-reload-startup"}
 	depth := 4
+	if rep.Thorough() {
+		depth = 5
+	}
 	n := 0
 	for li, lay := range layouts {
 		cf := "a.test:8080 {\n\t" + lay.directives + "\n\tstatus 204 /\n}\n"
@@ -584,7 +591,7 @@ func caseSensitive(rep *kit.Report, root string) {
 
 func main() {
 	rep := kit.NewReport("C20", "exploration",
-		"logging: 8 log layouts (one, two same-scope, two same-scope around another scope, disjoint scopes, except, except and scope written as directories, except on the first of two, nested scopes) x every subset of size <=2 of 11 wrapping directives x 22 inner behaviours x 13 paths x GET/POST x Accept-Encoding, new lines of every log file counted after every request and {status}/{size} compared with what the strict writer saw; rotation: two sites sharing one rolling file under 4 spellings of its name, every line counted over the file and its backups, lines after a rotation looked for in the current file; placeholders: every format of 3 atoms over 20 atoms (vocabulary, header/cookie/query/env lookups, unknown, escaped braces, text) x 9x9 request-supplied values containing placeholder syntax, against a single-pass reference; reloads: 10 layouts writing to a file (rolling or not, one or two logs on it), stdout, stderr or the default stream (alone, two logs on one stream, next to an errors log on the same stream) x every sequence of 4 steps over {request, reload, reload refused at set-up, reload refused at start-up} followed by a request, every request's line counted at the destination when it is made and again at the end of the sequence; distinct_nontrivial = outcome classes")
+		"logging: 8 log layouts (one, two same-scope, two same-scope around another scope, disjoint scopes, except, except and scope written as directories, except on the first of two, nested scopes) x every subset of size <=2 (thorough 3) of 11 wrapping directives x 22 inner behaviours x 13 paths x GET/POST x Accept-Encoding, new lines of every log file counted after every request and {status}/{size} compared with what the strict writer saw; rotation: two sites sharing one rolling file under 4 spellings of its name, every line counted over the file and its backups, lines after a rotation looked for in the current file; placeholders: every format of 3 atoms over 20 atoms (vocabulary, header/cookie/query/env lookups, unknown, escaped braces, text) x 9x9 request-supplied values containing placeholder syntax, against a single-pass reference; reloads: 10 layouts writing to a file (rolling or not, one or two logs on it), stdout, stderr or the default stream (alone, two logs on one stream, next to an errors log on the same stream) x every sequence of 4 (thorough 5) steps over {request, reload, reload refused at set-up, reload refused at start-up} followed by a request, every request's line counted at the destination when it is made and again at the end of the sequence; distinct_nontrivial = outcome classes")
 	kit.Init()
 	kit.RegisterProbe()
 	kit.Log.Off.Store(true)
